@@ -182,6 +182,26 @@ def _str_term(n, ints, consts):
             else:
                 raise Untranslatable(ast.dump(v))
         return '(str.++ %s "")' % ' '.join(parts) if parts else '""'
+    if isinstance(n, ast.Call) and isinstance(n.func, ast.Name) and n.func.id in consts.get('__funcs__', {}) and not n.keywords:
+        # call of another helper: inline its single return expression (positional arguments, integer defaults)
+        callee = consts['__funcs__'][n.func.id]
+        params = [a.arg for a in callee.args.args]
+        defaults = callee.args.defaults
+        bound = {}
+        for k, prm in enumerate(params):
+            if k < len(n.args):
+                bound[prm] = n.args[k]
+            else:
+                d = defaults[k - (len(params) - len(defaults))] if k >= len(params) - len(defaults) else None
+                if d is None:
+                    raise Untranslatable('missing argument for ' + n.func.id)
+                bound[prm] = d
+
+        class _Sub(ast.NodeTransformer):
+            def visit_Name(self, node):
+                return bound.get(node.id, node)
+        body = _Sub().visit(ast.parse(ast.unparse(_single_return(callee)), mode='eval').body)
+        return _str_term(body, ints, consts)
     raise Untranslatable(ast.dump(n))
 
 
@@ -214,15 +234,15 @@ def lemma_helpers():
     queries = 0
     solver_s = 0.0
     mod = importlib.import_module('ansi_string')
-    # alias must be the same function object
+    consts['__funcs__'] = {st.name: st for st in tree.body if isinstance(st, ast.FunctionDef)}
+    # cursor_back_str: an alias (assignment) of cursor_backward_str, or a function of its own that is then translated like the others
     alias_ok = False
     for st in tree.body:
         if (isinstance(st, ast.Assign) and isinstance(st.targets[0], ast.Name) and st.targets[0].id == 'cursor_back_str'
                 and isinstance(st.value, ast.Name) and st.value.id == 'cursor_backward_str'):
             alias_ok = True
-    if not alias_ok and getattr(mod, 'cursor_back_str', None) is not getattr(mod, 'cursor_backward_str', None):
-        status = 'violated'
-        detail.append({'fn': 'cursor_back_str', 'verdict': 'not an alias of cursor_backward_str'})
+    if not alias_ok:
+        table = table + [('cursor_back_str', 'D')]
     for name, final in table:
         try:
             fn = _find_func(tree, name)
